@@ -144,6 +144,7 @@ pub fn judge_c13(u: &UriCase, p: &Probe) -> Judge {
 }
 
 pub fn run_c13(ctx: &Ctx) {
+    ctx.enable_traced_pass(4);
     ctx.set_rule("proptest-generated absolute target URIs built from components (scheme in {http,https,ipp,ipps}; optional user-info with marker tokens in user and password, percent-encoding, extra ':'; host reg-name / IPv4 / bracketed IPv6; port absent / 1-65535 / leading zeros; path empty, '/', percent-encoded segments, ';', '//', dot segments; query with marker tokens, '?', '=', '@', '/'). Oracle: own splitter + component algebra + taint (no marker substring anywhere), idempotence, and the same for the printer-uri attribute and the encoded bytes of 11 request constructors/builders (each one evaluation). Non-trivial = URI has user-info or query and (non-reg-name host or explicit port or percent-encoded path); distinct by URI string.");
     let (shards, per) = ctx.tier.pick((16, 12000), (16, 200000));
     run_prop(ctx, "canonicalize", shards, per, uri_case, judge_c13, |u| u.to_json());
@@ -286,6 +287,7 @@ pub fn judge_c14(u: &UriCase, p: &Probe) -> Judge {
 }
 
 pub fn run_c14(ctx: &Ctx) {
+    ctx.enable_traced_pass(4);
     crate::c11::use_empty_trust_store();
     ctx.set_rule("proptest-generated target URIs (as C13) mapped through the hook verif_transport_url (the private function both clients call); result split by the harness's own splitter: ipp->http, ipps->https, port = explicit port else 631 for both schemes, user-info/host/path(empty==/)/query unchanged byte-for-byte; http/https unchanged. Non-trivial = scheme ipp/ipps and (IPv6 host or user-info or no port or query); distinct by URI string. Plus live cases per run (40 quick / 400 thorough) through a loopback HTTP server with explicit ports, tying the hooked function to what both clients really dial (request line, Host header), and 3 live cases checking that the target's user-info reaches the HTTP layer (observable as the Authorization header the backends derive from it).");
     let (shards, per) = ctx.tier.pick((16, 25000), (16, 400000));
